@@ -148,16 +148,18 @@ impl<'input> Scalar<'input> {
     /// Returns the parsed [`Scalar`].
     #[must_use]
     pub fn parse_from_cow(v: Cow<'input, str>) -> Self {
+        // `from_str_radix` and `parse` accept a sign of their own: `0x-1` or `+-5` are not integers.
+        let unsigned = |number: &str| !number.starts_with(['+', '-']);
         if let Some(number) = v.strip_prefix("0x") {
-            if let Ok(i) = i64::from_str_radix(number, 16) {
+            if let (true, Ok(i)) = (unsigned(number), i64::from_str_radix(number, 16)) {
                 return Self::Integer(i);
             }
         } else if let Some(number) = v.strip_prefix("0o") {
-            if let Ok(i) = i64::from_str_radix(number, 8) {
+            if let (true, Ok(i)) = (unsigned(number), i64::from_str_radix(number, 8)) {
                 return Self::Integer(i);
             }
         } else if let Some(number) = v.strip_prefix('+') {
-            if let Ok(i) = number.parse::<i64>() {
+            if let (true, Ok(i)) = (unsigned(number), number.parse::<i64>()) {
                 return Self::Integer(i);
             }
         }
